@@ -45,6 +45,8 @@ type vLeaf struct {
 	onlyOwner string
 	tiedTo    string
 	uintChoice []uint64 // uint leaf whose value is one of these (forked)
+	llElems    []string // leaf-list whose n elements (llMin..llMax) are each one of these (forked): repeats possible
+	llMin      int
 }
 
 func (l *vLeaf) path() *sdcpb.Path {
@@ -170,6 +172,11 @@ func vPickScenario() *vScenario {
 		sc = vScenarioDefaulted()
 	case 5:
 		sc = vScenarioPresence()
+	case 6:
+		// a leaf-list (min-elements 2, max-elements 3) whose elements are drawn from {a, b}:
+		// lists with a repeated value occur
+		sc = &vScenario{leaves: []*vLeaf{{id: "leaflist/entry", elems: []*sdcpb.PathElem{vPE("leaflist"), vPE("entry")}, strs: []string{"leaflist", "entry"},
+			ll: true, llMin: 2, llMax: 3, llElems: []string{"a", "b"}}}, owners: []string{"A", "B"}}
 	default:
 		sc = vScenarioThin()
 	}
@@ -213,6 +220,7 @@ type vVal struct {
 	s string
 	i int64
 	n int // leaf-list: number of elements
+	le []string // leaf-list: explicit elements (llElems scenarios)
 	// uint leaf stored in string form (StringVal holding the decimal text): the stores may hold
 	// it, readers normalise it with TypedValueToYANGType (C15, C12)
 	strForm bool
@@ -237,6 +245,10 @@ func (l *vLeaf) tv(v vVal) *sdcpb.TypedValue {
 	if l.ll {
 		arr := &sdcpb.ScalarArray{}
 		for k := 0; k < v.n; k++ {
+			if v.le != nil {
+				arr.Element = append(arr.Element, vStrTV(v.le[k]))
+				continue
+			}
 			arr.Element = append(arr.Element, vStrTV("e"+string(rune('0'+k))))
 		}
 		return &sdcpb.TypedValue{Value: &sdcpb.TypedValue_LeaflistVal{LeaflistVal: arr}}
@@ -263,6 +275,14 @@ func (l *vLeaf) newVal(tag string) vVal {
 	}
 	if l.isInt {
 		return vVal{i: verifrt.IntRange(tag, l.intLo, l.intHi)}
+	}
+	if l.ll && len(l.llElems) > 0 {
+		n := l.llMin + verifrt.Choice(tag, l.llMax-l.llMin+1)
+		v := vVal{n: n, le: []string{}}
+		for k := 0; k < n; k++ {
+			v.le = append(v.le, l.llElems[verifrt.Choice(tag+".e"+string(rune('0'+k)), len(l.llElems))])
+		}
+		return v
 	}
 	if l.ll {
 		return vVal{n: verifrt.Choice(tag, l.llMax+1)}
@@ -307,7 +327,11 @@ func (l *vLeaf) sameVal(tv *sdcpb.TypedValue, v vVal) bool {
 			return false
 		}
 		for k, e := range el {
-			if e.GetStringVal() != "e"+string(rune('0'+k)) {
+			want := "e" + string(rune('0'+k))
+			if v.le != nil {
+				want = v.le[k]
+			}
+			if e.GetStringVal() != want {
 				return false
 			}
 		}
@@ -441,7 +465,15 @@ func (l *vLeaf) eqVal(a, b vVal) bool {
 		return a.i == b.i
 	}
 	if l.ll {
-		return a.n == b.n
+		if a.n != b.n {
+			return false
+		}
+		for k := 0; k < a.n && a.le != nil && b.le != nil; k++ {
+			if a.le[k] != b.le[k] {
+				return false
+			}
+		}
+		return true
 	}
 	return a.s == b.s
 }
@@ -905,6 +937,17 @@ func vSameTV(a, b *sdcpb.TypedValue) bool {
 	case *sdcpb.TypedValue_EmptyVal:
 		_, ok := b.GetValue().(*sdcpb.TypedValue_EmptyVal)
 		return ok
+	case *sdcpb.TypedValue_LeaflistVal:
+		y, ok := b.GetValue().(*sdcpb.TypedValue_LeaflistVal)
+		if !ok || len(x.LeaflistVal.GetElement()) != len(y.LeaflistVal.GetElement()) {
+			return false
+		}
+		for i, e := range x.LeaflistVal.GetElement() {
+			if !vSameTV(e, y.LeaflistVal.GetElement()[i]) {
+				return false
+			}
+		}
+		return true
 	}
 	return false
 }
